@@ -19,8 +19,21 @@ SPEC = {
              "names) are concatenations of 1-3 pieces from the classes quotes, backslashes, newlines/CR/tab, unicode (incl. U+2028, "
              "U+0085, BOM, astral), `%{` / unterminated `${` / `$${`, YAML-special scalars (yes, null, ~, 1e3, 0x1F, `- a`, `#c`, "
              "`a: b`, `<<`, timestamps, base-60, leading/trailing blanks, empty), control characters, go-template text; all NFC, "
-             "never a complete ${...}. The description is rendered to x.hcl with hclwrite (block types in a drawn order; bodies / "
+             "never a complete ${...}. 35% of the bodies / payloads and 6% of the other free-text values are pasted text blocks: 1-5 "
+             "lines from a pool of TSV rows (also with an empty first column), tab- / space-indented JSON, XML, YAML and Makefile "
+             "text, lines with `#`, `: `, `- `, trailing blanks or tabs, empty lines; LF (8%: CR LF) line ends; no, one or 2-3 "
+             "trailing newlines. The description is rendered to x.hcl with hclwrite (block types in a drawn order; bodies / "
              "payloads optionally as heredocs) and to x.yaml with yaml.v2 (ordered maps; empty sections optionally written as []). "
+             "In 85% of the descriptions string values of x.yaml (bodies / payloads 65%, other values - names, uri, tags, header / "
+             "metadata / mapping / variables values, list items - 20%, 40% when multi-line or with a tab) are written by hand instead "
+             "of by Marshal, in a drawn style: literal `|` or folded `>` block scalar (content indented 1-8 columns; indentation "
+             "indicator when the first line starts with a space or tab, else in 25%; chomping `-` / clip / `+` as the trailing "
+             "newlines demand, `+` also for one newline in 25%; folded: breaks between non-indented lines doubled, optionally "
+             "wrapped at single spaces), multi-line plain scalar, single-quoted scalar (both with folded continuation lines, "
+             "optionally wrapped), double-quoted scalar with only the necessary escapes (literal tabs / unicode, optionally "
+             "continued after each \\n with a trailing backslash). A hand-written scalar is kept only if yaml.v2's own Unmarshal reads "
+             "the file back exactly as it reads the Marshal form (e.g. CR, NEL, control characters cannot be said in a block "
+             "scalar); otherwise the Marshal form is written and the case counts yaml_style_fallback. "
              "TestLocals additionally writes 1-3 `locals` blocks (later ones refer to earlier ones; a local may be re-declared with "
              "the same value, or given a new value by a later block, also one built from its old value) and ~40% of the map / list / string attributes as expressions (depth <= 3) over local.* references, the 17 "
              "documented functions and quoted templates with ${} interpolation, built so that the documented preconditions hold "
@@ -48,6 +61,19 @@ SPEC = {
         "TestEquivalence/str_yaml_special": 0.4, "TestEquivalence/str_control": 0.15,
         "TestEquivalence/key_yaml_special": 0.15, "TestEquivalence/name_yaml_special": 0.1,
         "TestEquivalence/hcl_block_order_permuted": 0.5,
+        "TestEquivalence/str_line_starts_with_tab": 0.25, "TestEquivalence/str_cr": 0.15, "TestEquivalence/str_several_trailing_newlines": 0.15,
+        "TestEquivalence/yaml_hand_scalar": 0.6, "TestEquivalence/yaml_literal": 0.4, "TestEquivalence/yaml_folded": 0.3,
+        "TestEquivalence/yaml_block_line_starts_with_tab": 0.08, "TestEquivalence/yaml_block_first_line_starts_with_tab": 0.04,
+        "TestEquivalence/yaml_block_line_starts_with_space": 0.1, "TestEquivalence/yaml_block_trailing_blanks": 0.06,
+        "TestEquivalence/yaml_block_hash": 0.04, "TestEquivalence/yaml_block_colon_space": 0.1,
+        "TestEquivalence/yaml_block_several_trailing_newlines": 0.05, "TestEquivalence/yaml_block_indent_indicator": 0.25,
+        "TestEquivalence/yaml_block_keep": 0.1, "TestEquivalence/yaml_block_strip": 0.4, "TestEquivalence/yaml_folded_inner_newline": 0.08,
+        "TestEquivalence/yaml_block_not_body_or_payload": 0.4,
+        "TestEquivalence/yaml_plain_multiline": 0.02, "TestEquivalence/yaml_single_quoted_multiline": 0.05,
+        "TestEquivalence/yaml_double_quoted_multiline": 0.015, "TestEquivalence/yaml_double_quoted_literal_tab": 0.015,
+        "TestEquivalence/yaml_style_fallback": 0.05,
+        "TestLocals/yaml_literal": 0.4, "TestLocals/yaml_folded": 0.3, "TestLocals/yaml_block_line_starts_with_tab": 0.08,
+        "TestLocals/yaml_block_first_line_starts_with_tab": 0.04,
         "TestLocals/fn_coalesce": 0.05, "TestLocals/fn_coalescelist": 0.05, "TestLocals/fn_compact": 0.05, "TestLocals/fn_concat": 0.2,
         "TestLocals/fn_distinct": 0.05, "TestLocals/fn_element": 0.1, "TestLocals/fn_flatten": 0.05, "TestLocals/fn_keys": 0.03,
         "TestLocals/fn_lookup": 0.05, "TestLocals/fn_merge": 0.1, "TestLocals/fn_reverse": 0.05, "TestLocals/fn_slice": 0.05,
@@ -58,7 +84,7 @@ SPEC = {
     },
     "manifest": {
         "technique": ("differential property testing (rapid): one generated description rendered by two independent renderers "
-                      "(hclwrite / yaml.v2) and read through pandora's two front-ends, plus a field-by-field statement of the "
+                      "(hclwrite / yaml.v2 plus hand-written scalar styles) and read through pandora's two front-ends, plus a field-by-field statement of the "
                       "description and a reference evaluator for the HCL-only expressions"),
         "text": ("For every generated description config.ReadAmmoConfig(x.hcl) and config.ReadAmmoConfig(x.yaml) must both succeed and "
                  "be equal under a normalising comparison (nil = empty map/slice, pointers by value, exported fields only, dynamic "
@@ -74,8 +100,11 @@ SPEC = {
                  "`index` is bound to element access instead of the documented search; bare numbers / booleans in a `variables` "
                  "source become strings in HCL only) are steered around by redrawing while listed as known and re-confirmed by fixed "
                  "witnesses in TestKnownWitness (which also runs the documentation's own HCL / YAML example); while index() is "
-                 "excluded no generated case calls it. The native byte-mutation campaign of the design, YAML anchors / the YAML "
-                 "`locals` helper block and HCL comment / CRLF layouts are not implemented."),
+                 "excluded no generated case calls it. Of the YAML layout only the scalar styles of string values vary (block, plain, "
+                 "single- and double-quoted by hand); keys, the block structure and numbers are as yaml.v2 writes them (no flow "
+                 "collections, no indented sequences, no comments), and HCL strings are quoted or `<<EOT` heredocs (no `<<-`). The "
+                 "native byte-mutation campaign of the design, YAML anchors / the YAML `locals` helper block and HCL comment / "
+                 "CRLF layouts are not implemented."),
     },
     "assumptions": [
         "locals blocks are evaluated in file order and a name assigned again by a later block means the later value from then on (the documentation only shows re-declaration with the same value)",
@@ -84,5 +113,6 @@ SPEC = {
         "complete ${...} sequences are not generated (placeholder language of the config layer, property C17)",
         "the documented semantics of the HCL functions are those of the pages docs/eng/scenario/functions.md links to",
         "hclwrite's quoted-string escaping and yaml.v2's Marshal are the trusted base of the two renderers (the key `<<`, which yaml.v2 writes unquoted, is quoted by the harness)",
+        "a hand-written YAML scalar means what yaml.v2's Unmarshal (the library the YAML front-end, config.DecodeMap, reads files with) reads from it: it is only written when the whole file then decodes exactly as the Marshal form does",
     ],
 }
